@@ -97,9 +97,9 @@ ObsReset(cfg) ==
 Props(o) == Range(o.cfg.props)
 \* history is only kept for the clauses that are evaluated in this run (keeps the monitor state small)
 Want(o, P) == Props(o) \cap P # {}
-WantAcc(o)  == Want(o, {"C02", "C08", "C09", "C15"})
+WantAcc(o)  == Want(o, {"C02", "C08", "C09", "C15", "C11", "C14"})
 WantHand(o) == Want(o, {"C02", "C08", "C09"})
-WantTx(o)   == Want(o, {"C15"})
+WantTx(o)   == Want(o, {"C15", "C11", "C14"})
 WantCnt(o)  == Want(o, {"C01", "C02", "C03"})
 Flag(o, F) == [o EXCEPT !.flags = @ \cup F]
 FlagIf(o, cond, f) == IF cond THEN Flag(o, {f}) ELSE o
@@ -187,7 +187,7 @@ ObsSend(o, e) ==
         s1 == [s EXCEPT !.sub = IF s.kind = "RO" /\ Want(o, {"C01"}) THEN Append(@, e.cid) ELSE @,
                         !.subN = IF WantCnt(o) THEN Put(@, e.cid, Get(@, e.cid, 0) + 1) ELSE @,
                         !.acc = IF accepted /\ s.kind # "U" /\ WantAcc(o) THEN Append(@, [cid |-> e.cid, len |-> e.len]) ELSE @,
-                        !.uSent = IF accepted /\ s.kind = "U" /\ Want(o, {"C14", "C09"}) THEN Append(@, [cid |-> e.cid, len |-> e.len, fl |-> nfl]) ELSE @]
+                        !.uSent = IF accepted /\ s.kind = "U" /\ Want(o, {"C14", "C09", "C11"}) THEN Append(@, [cid |-> e.cid, len |-> e.len, fl |-> nfl]) ELSE @]
         \* C12: a disconnected endpoint accepts nothing (its accounting does not move)
         o1 == FlagIf([o EXCEPT !.str[k] = s1],
                      e.st0.status = "Disc" /\ (e.st1.avail # e.st0.avail \/ e.st1.unacked # e.st0.unacked), <<"C12", "Absorbing">>)
@@ -398,6 +398,29 @@ PromptOK(o, e, t) ==
                                     => <<m, x>> \in SentL(k)
     IN  ~room \/ \A k \in ks : OKs(k)
 
+\* C11 / C14: what earlier channels left is available to later ones -- a queued message for which the budget of this
+\* tick still has room (the bytes actually carried by this flush plus its own size fit) is not left behind
+FitsOK(o, e, t) ==
+    LET pk == e.pk
+        total == SumSeq([i \in 1..Len(pk) |-> pk[i].pay], 1)
+        ksU == {k \in DOMAIN o.str : k[1] = e.conn /\ k[2] = e.dir /\ o.str[k].kind = "U"}
+        ksR == {k \in DOMAIN o.str : k[1] = e.conn /\ k[2] = e.dir /\ o.str[k].kind # "U"}
+        CidsU(k) == UNION {{pk[i].msgs[j].cid : j \in 1..Len(pk[i].msgs)} : i \in {x \in 1..Len(pk) : pk[x].kind = "SU" /\ pk[x].ch = k[3]}}
+                    \cup {pk[i].sl.mcid : i \in {x \in 1..Len(pk) : pk[x].kind = "US" /\ pk[x].ch = k[3]}}
+        SentS(k) == UNION {{pk[i].msgs[j].mid : j \in 1..Len(pk[i].msgs)} : i \in {x \in 1..Len(pk) : pk[x].kind = "SR" /\ pk[x].ch = k[3]}}
+        SentL(k) == {pk[i].sl.mid : i \in {x \in 1..Len(pk) : pk[x].kind = "RS" /\ pk[x].ch = k[3]}}
+        OKu(k) == \A j \in 1..Len(o.str[k].uSent) :
+                     LET u == o.str[k].uSent[j] IN (total + u.len <= o.cfg.budget) => u.cid \in CidsU(k)
+        \* reliable messages never transmitted so far
+        OKr(k) == LET s == o.str[k]
+                      un == IF s.ci \in DOMAIN e.st0.unacked THEN Range(e.st0.unacked[s.ci]) ELSE {}
+                  IN \A m \in un : (m >= 0 /\ m < Len(s.acc)) =>
+                        IF s.acc[m + 1].len <= SLICE
+                        THEN (m \notin DOMAIN s.lastS /\ total + s.acc[m + 1].len <= o.cfg.budget) => m \in SentS(k)
+                        ELSE ((\A x \in 0..(NSlices(s.acc[m + 1].len) - 1) : <<m, x>> \notin DOMAIN s.lastSl)
+                              /\ total + SLICE <= o.cfg.budget) => m \in SentL(k)
+    IN (\A k \in ksU : OKu(k)) /\ (\A k \in ksR : OKr(k))
+
 \* C14: an unreliable message leaves in the first flush after its send, whole, or never
 UnrelWholeOK(o, e, nfl) ==
     LET pk == e.pk
@@ -428,9 +451,11 @@ ObsFlush(o, e) ==
              \cup (IF e.st0.status = "Disc" /\ Len(pk) > 0 THEN {<<"C12", "Absorbing">>} ELSE {})
              \cup (IF "C15" \in Props(o) /\ Alive(e.st0.status) /\ Alive(e.st1.status) /\ ~PromptOK(o, e, t) THEN {<<"C15", "Prompt">>} ELSE {})
              \cup (IF "C14" \in Props(o) /\ ~UnrelWholeOK(o, e, nfl) THEN {<<"C14", "UnreliableWhole">>} ELSE {})
+             \cup (IF Want(o, {"C11", "C14"}) /\ Alive(e.st0.status) /\ Alive(e.st1.status) /\ ~FitsOK(o, e, t)
+                   THEN {<<"C14", "FitsSent">>, <<"C11", "NotStarved">>} ELSE {})
         o1 == IF WantTx(o) THEN FlushPk(o, e, pk, 1, t) ELSE o
         \* unreliable messages queued before this flush are gone after it (sent or dropped)
-        o2 == IF Want(o, {"C14", "C09"})
+        o2 == IF Want(o, {"C14", "C09", "C11"})
               THEN [o1 EXCEPT !.ep[ek].nfl = nfl,
                          !.str = [k \in DOMAIN o1.str |->
                                     IF k[1] = e.conn /\ k[2] = e.dir /\ o1.str[k].kind = "U" /\ Alive(e.st0.status)
